@@ -235,6 +235,37 @@ func consistencyCheck(h []event, unlocking, locking []byte) (string, string) {
 		if st.scriptIdx < 0 || st.scriptIdx >= len(st.scripts) {
 			return "snapshot-pc", fmt.Sprintf("event %d (%s): ScriptIdx %d outside the %d scripts of the snapshot", i, evNames[e.kind], st.scriptIdx, len(st.scripts))
 		}
+		// the P2SH hand-over (the redeem script appears as a third script): the documented lifecycle announces the
+		// restored stack -- "if bip16 and end of final script: BeforeStackPush / AfterStackPush" -- item by item,
+		// after the script change and before AfterStep
+		if i > 0 && h[i-1].st != nil && len(h[i-1].st.scripts) == 2 && len(st.scripts) == 3 {
+			end := -1
+			for j := i; j < len(h); j++ {
+				if h[j].kind == evAS {
+					end = j
+					break
+				}
+				if h[j].kind == evBS || h[j].kind == evAE {
+					break
+				}
+			}
+			if end >= 0 && h[end].st != nil {
+				start := i
+				for start > 0 && h[start].kind != evAO && h[start].kind != evBO {
+					start--
+				}
+				var pushed [][]byte
+				for j := start; j < end; j++ {
+					if h[j].kind == evPUa {
+						pushed = append(pushed, h[j].arg)
+					}
+				}
+				want := h[end].st.data
+				if len(pushed) < len(want) || !sameStack(pushed[len(pushed)-len(want):], want) {
+					return "lifecycle-order", fmt.Sprintf("event %d: the P2SH hand-over left %d items on the data stack but announced %d pushes after the opcode: the documented BeforeStackPush / AfterStackPush of the restored stack are missing", i, len(want), len(pushed))
+				}
+			}
+		}
 		switch e.kind {
 		case evBS:
 			if lastAS != nil && lastAS.key != st.key {
